@@ -30,7 +30,7 @@ class EventScript:
         if well_nested:
             # what a default-configured reader (check_end_names) guarantees: an End event only closes an open Start
             for i in range(n):
-                depth = z3.Sum([z3.If(self.k[j] == K['Start'], 1, 0) - z3.If(self.k[j] == K['End'], 1, 0) for j in range(i)]) if i else z3.IntVal(0)
+                depth = X.zsum([z3.If(self.k[j] == K['Start'], 1, 0) - z3.If(self.k[j] == K['End'], 1, 0) for j in range(i)])
                 self.pre.append(z3.Implies(z3.And(i < self.L, self.k[i] == K['End']), depth >= 1))
     def start_marker(self, i, kind):
         return _SymStart(kind, self, i)
